@@ -41,11 +41,12 @@ def prune_rule(rep, prog):
                 g = guards[-1] if guards else None
                 desc = ("%s:%s" % (g["op"], g["want"]) if g else "?", keep)
                 a, b = dcs[-1]["a"], dcs[-1]["b"]
-                okk = isinstance(a, Opaque) and a.kind == "duration" and ("existing", "last_time") in tags_of(a.get("of")) \
+                src = set(t[1] for t in (tags_of(a.get("of")) if isinstance(a, Opaque) and a.kind == "duration" else ()) if isinstance(t, tuple) and t[0] == "existing_path")
+                okk = isinstance(a, Opaque) and a.kind == "duration" and src == {"last_time"} \
                     and isinstance(b, Opaque) and b.kind == "duration_const" and b.get("unit") == "secs" \
                     and isinstance(b.get("n"), IntVal) and ("name", "filter_time") in b.get("n").tags
                 if not okk:
-                    rep.violation("R1", "prune:operands", "the expiry test does not compare last_time.elapsed() with Duration::from_secs(filter_time): %r vs %r" % (a, b))
+                    rep.violation("R1", "prune:operands", "the expiry test does not compare the record's own last_time.elapsed() (and nothing else; sources seen: %s) with Duration::from_secs(filter_time): %r vs %r" % (sorted(src), a, b))
             seen.add(desc)
             rep.instance(rid, "retain|%s" % (desc,), sample={"case": desc})
     want = {("clock-error", 0), ("dur_lt:1", 1), ("dur_lt:0", 0)}
